@@ -541,7 +541,9 @@ fn meta_case(rng: &mut Rng, rep: &mut Report, case_id: u64) {
     let built = guard(|| {
         let tp: Vec<TypeParameter> = params.iter().map(|(n, t)| TypeParameter::new(n, t.map(|k| meta_of(k).0))).collect();
         let b = Type::builder();
-        let b = b.path(Path::from_segments(segs.clone()).expect("valid segments")).type_params(tp);
+        // the parameter list through a Vec or through a lazy iterator without an exact size hint
+        let b = b.path(Path::from_segments(segs.clone()).expect("valid segments"));
+        let b = if case_id % 3 == 1 { b.type_params(tp.into_iter().filter(|_| true)) } else { b.type_params(tp) };
         let b = match tdocs {
             Some((true, d)) => b.docs_always(d),
             Some((false, d)) => b.docs(d),
@@ -618,6 +620,31 @@ fn meta_case(rng: &mut Rng, rep: &mut Report, case_id: u64) {
             if t != want {
                 rep.violation(&diff_key("", "", t.docs == want.docs && format!("{:?}", t).matches("docs").count() == format!("{:?}", want).matches("docs").count() && docs_of(&t) == docs_of(&want)), format!("compile-time builder output differs from the arguments supplied\n  built    {:?}\n  expected {:?}", t, want), case);
             }
+            // what was supplied survives the conversion to portable form as well (docs included, whatever the docs feature)
+            if t == want {
+                use scale_info::IntoPortable;
+                let p = t.clone().into_portable(&mut scale_info::Registry::new());
+                let same_docs = p.docs.iter().map(|s| s.as_str()).collect::<Vec<_>>() == want.docs
+                    && match (&p.type_def, &want.type_def) {
+                        (TypeDef::Composite(a), TypeDef::Composite(b)) => a.fields.len() == b.fields.len() && a.fields.iter().zip(&b.fields).all(|(x, y)| x.docs.iter().map(|s| s.as_str()).collect::<Vec<_>>() == y.docs && x.name.as_deref() == y.name && x.type_name.as_deref() == y.type_name),
+                        (TypeDef::Variant(a), TypeDef::Variant(b)) => {
+                            a.variants.len() == b.variants.len()
+                                && a.variants.iter().zip(&b.variants).all(|(x, y)| {
+                                    x.docs.iter().map(|s| s.as_str()).collect::<Vec<_>>() == y.docs
+                                        && x.name == y.name
+                                        && x.index == y.index
+                                        && x.fields.len() == y.fields.len()
+                                        && x.fields.iter().zip(&y.fields).all(|(f, g)| f.docs.iter().map(|s| s.as_str()).collect::<Vec<_>>() == g.docs && f.name.as_deref() == g.name && f.type_name.as_deref() == g.type_name)
+                                })
+                        }
+                        _ => false,
+                    };
+                let same_params = p.type_params.len() == want.type_params.len() && p.type_params.iter().zip(&want.type_params).all(|(x, y)| x.name == y.name && x.ty.is_some() == y.ty.is_some());
+                if !same_docs || !same_params || p.path.segments.iter().map(|s| s.as_str()).collect::<Vec<_>>() != want.path.segments {
+                    rep.violation("C17/portable-form-loses-parts", format!("the portable form of a built type does not contain what was supplied\n  portable {:?}\n  supplied {:?}", p, want), json!({"case": case_id, "form": "meta->portable"}));
+                }
+                rep.count("meta_types_converted", 1);
+            }
             // erasure: no member of the output is a PhantomData
             let ph = meta_type::<PhantomData<()>>();
             let listed: Vec<MetaType> = match &t.type_def {
@@ -656,10 +683,83 @@ fn docs_of(t: &Type<MetaForm>) -> Vec<Vec<&'static str>> {
     out
 }
 
+/// C20 at run time: whatever sequence of (legal, compiling) builder calls is made, the result never mixes named and unnamed
+/// fields in one composite or variant, and every variant has the index and every field the type that was assigned last.
+fn homogeneity_case(rng: &mut Rng, rep: &mut Report, case_id: u64) {
+    let calls: Vec<bool> = (0..rng.range(1, 4)).map(|_| rng.flip()).collect(); // true = named
+    let idx = rng.next_u64() as u8;
+    let calls2 = calls.clone();
+    let built = guard(move || {
+        Variants::<MetaForm>::new()
+            .variant("V", move |v| {
+                let mut v = v.index(idx);
+                for (k, named) in calls2.iter().enumerate() {
+                    v = if *named {
+                        v.fields(Fields::named().field(|f| f.ty::<u8>().name("a")).field(|f| f.ty::<u16>().name("b")))
+                    } else if k % 2 == 0 {
+                        v.fields(Fields::unnamed().field(|f| f.ty::<u32>()))
+                    } else {
+                        v.fields(Fields::unit())
+                    };
+                }
+                v
+            })
+            .finalize()
+    });
+    rep.count("repeated_fields_calls", 1);
+    match built {
+        Ok(def) => {
+            let fs = &def.variants[0].fields;
+            let named = fs.iter().filter(|f| f.name.is_some()).count();
+            if named != 0 && named != fs.len() {
+                rep.violation("C20/builder/mixed-named-unnamed-at-run-time", format!("a variant built by {} successive fields(..) calls mixes {} named and {} unnamed fields", calls.len(), named, fs.len() - named), json!({"case": case_id, "calls_named": calls}));
+            }
+            if def.variants[0].index != idx {
+                rep.violation("C20/builder/index-lost", "the variant does not carry the index that was assigned".into(), json!({"case": case_id}));
+            }
+        }
+        Err(p) => rep.violation("C20/builder/panic", format!("a compiling builder program panicked: {}", p), json!({"case": case_id, "calls_named": calls})),
+    }
+    // the same for portable form
+    let calls3 = calls.clone();
+    let built = guard(move || {
+        Variants::<PortableForm>::new()
+            .variant("V".to_string(), move |v| {
+                let mut v = v.index(idx);
+                for named in calls3.iter() {
+                    v = if *named {
+                        v.fields(Fields::<PortableForm>::named().field_portable(|f| f.ty(1u32).name("a".to_string())))
+                    } else {
+                        v.fields(Fields::<PortableForm>::unnamed().field_portable(|f| f.ty(2u32)).field_portable(|f| f.ty(3u32)))
+                    };
+                }
+                v
+            })
+            .finalize()
+    });
+    if let Ok(def) = built {
+        let fs = &def.variants[0].fields;
+        let named = fs.iter().filter(|f| f.name.is_some()).count();
+        if named != 0 && named != fs.len() {
+            rep.violation("C20/builder/mixed-named-unnamed-at-run-time", format!("a portable variant built by {} successive fields(..) calls mixes named and unnamed fields", calls.len()), json!({"case": case_id, "calls_named": calls, "form": "portable"}));
+        }
+    }
+}
+
 pub fn run(a: &Args) -> Report {
     let seed = a.u("seed", 1);
     let thorough = a.thorough();
     let cfg = a.run_cfg(if thorough { 3_000_000 } else { 100_000 });
+    if a.prop() == "C20" {
+        return run_parallel(&cfg, |i, rep| {
+            let mut rng = Rng::derive(seed ^ 0x20, i);
+            homogeneity_case(&mut rng, rep, i);
+            rep.eval(Some(i ^ 0x2020));
+            if i < 2 {
+                rep.sample(|| json!({"case": i, "kind": "run-time builder script with repeated fields(..) calls"}));
+            }
+        });
+    }
     let mut total = Report::default();
     total.count(if DOCS_ON { "build_docs_on" } else { "build_docs_off" }, 1);
     let body = run_parallel(&cfg, |i, rep| {
